@@ -675,8 +675,9 @@ func init() {
 		if cInt(m, a[2], "AppendInt base") != 10 {
 			inconclusive("AppendInt base != 10")
 		}
+		// appends in place when dst has room, as strconv does: callers that pass buf[:0] reuse (and alias) buf
 		dst, _ := a[0].(Slice)
-		return append(append(Slice{}, dst...), m.formatInt(a[1], 0, false)...)
+		return appendVals(dst, m.formatInt(a[1], 0, false))
 	}
 	stubs["strconv.Atoi"] = func(m *Machine, fr *frame, fn *ssa.Function, a []Val) Val {
 		if s, ok := isConcreteStr(a[0]); ok {
